@@ -1,8 +1,10 @@
 // vh-wide: correspondence harness for C18 (and reusable simulator driver).
 // One case per line on stdin, exactly one result line per case on stdout.
 //   <helper-op> ...      wide_ops helper call            (src/helpers.rs)
-//   SIM <json>           build a module under a config, drive ports, read outputs (src/sim.rs)
+//   SIM ...              build a module under configs, drive ports, read outputs (src/sim.rs)
+//   RAND ...             random_table draws (src/randtab.rs, C32)
 mod helpers;
+mod randtab;
 mod sim;
 
 use std::io::{self, BufRead, Write};
@@ -23,6 +25,8 @@ fn main() {
         let res = std::panic::catch_unwind(|| {
             if let Some(rest) = line.strip_prefix("SIM ") {
                 sim::run(rest)
+            } else if let Some(rest) = line.strip_prefix("RAND ") {
+                randtab::run(rest)
             } else {
                 let t: Vec<&str> = line.split_whitespace().collect();
                 if helpers::is_helper(t[0]) {
